@@ -269,11 +269,11 @@ var specs = []CheckSpec{
 		Harnesses: []HarnessSpec{
 			{Fn: "VerifC11OneWriterOneReader", Quick: map[string]int{"L": 1}, Thorough: map[string]int{"L": 2}, Witness: []string{"fresh", "restore-identical", "overwrite", "lookup-hit", "lookup-miss", "getfile-hit", "several-snapshots"}},
 			{Fn: "VerifC11TwoWriters", Quick: map[string]int{"L": 2, "OBS": 0}, Thorough: map[string]int{"L": 2, "OBS": 0}, Witness: []string{"writer-b-ran", "identical-content", "different-content", "lookup-hit", "getfile-hit"}},
-			{Fn: "VerifC11TwoWritersObserved", Thorough: map[string]int{"L": 1, "OBS": 1}, ThoroughOnly: true, Witness: []string{"writer-b-ran", "lookup-hit", "lookup-miss"}},
+			{Fn: "VerifC11TwoWritersObserved", Thorough: map[string]int{"L": 2, "OBS": 1, "TORN": 0}, ThoroughOnly: true, Witness: []string{"writer-b-ran", "lookup-hit", "lookup-miss"}},
 		},
 		Bounds: map[string]string{
 			"quick":    "one writer (PutBytes of <= 1 symbolic byte over an empty cache, or over an earlier complete Put of equal or of different content) and one reader (GetBytes or GetFile of that id): every interleaving of the reader's file operations with the writer's mutations, every write of several bytes visible torn at representative offsets (any offset for short buffers, every field boundary of the index entry); the reader's i-th operation observes snapshot k_i with k_1 <= k_2 <= ... chosen by the solver among the points where the accessed path changed; two writers of the same id (identical or different content, <= 2 bytes): writer A interrupted before any of its file operations by writer B performing any number of its own operations and then standing still, A finishing, a reader looking the id up afterwards",
-			"thorough": "one writer/one reader with data <= 2 bytes; two writers with a reader overlapping them (data <= 1 byte, torn writes)",
+			"thorough": "one writer/one reader with data <= 2 bytes; two writers with a reader overlapping them at solver-chosen snapshots (data <= 2 bytes; whole writes, no torn writes: with torn writes the exploration did not finish in 2.5 hours and was cut back)",
 		},
 		Stubs: []string{"as C05; vfs snapshots after every mutation (torn writes included); observer view re-bound to the chosen snapshot before each operation"},
 		Assumptions: append([]string{"open, truncate, stat, chtimes, unlink are atomic; a single write may be observed half done at a byte boundary; processes share only the file system (goroutines inside one process share nothing else in this code)", "modification times are not observed by Put or by lookups (only by Trim), so the reader's Chtimes commute with the writer (the harness ignores chtimes when forming snapshots)", "SHA-256 as injective pool-digest model (see C05)"}, commonAssumptions...),
